@@ -185,3 +185,10 @@ Example name_roundtrip_demo :
   NameRoundtrip.good (lower "6-31G**/STO-3G*") = true /\ transform_basis_name "6-31G**/STO-3G*" = "6-31g_st__st__sl_sto-3g_st_" /\
   NameRoundtrip.good "*sl/" = false.
 Proof. vm_compute. repeat split; reflexivity. Qed.
+
+(* hence two names that differ after lower-casing never share a file name (what bundles and add_basis rely on) *)
+Theorem filename_injective :
+  forall n m, NameRoundtrip.good (lower n) = true -> NameRoundtrip.good (lower m) = true ->
+    transform_basis_name n = transform_basis_name m -> lower n = lower m.
+Proof. exact NameRoundtrip.filename_injective_lemma. Qed.
+Print Assumptions filename_injective.
